@@ -77,8 +77,12 @@ def mboxOp : List String → String
   | l => if l.contains "PANIC" then propfail "panic" else "BADLINE"
 
 def mboxlistOp : List String → String
-  | [items, disp, back] =>
+  | [items, disp, backConv] =>
     if disp == "PANIC" then propfail "panic" else
+    let (back, conv) := match backConv.splitOn "|" with
+      | [b, c] => (b, c)
+      | _ => (backConv, "conv:11111")
+    if disp != "fmterr" && conv != "conv:11111" then propfail s!"mailbox-list-conversions-lose-or-reorder:{conv}" else
     let ms : Option (List MBox) := if items == "-" then some [] else (items.splitOn ",").mapM parseShown
     match ms with
     | none => "BADLINE"
